@@ -306,11 +306,35 @@ func H_C05_dotted() {
 
 // H_C05_dup: an input that defines the same setting twice must be rejected as a duplicate,
 // whatever the enumeration order of the input map.
+type c05Key string
+
 func H_C05_dup() {
 	x := verif.Uint64("x")
 	y := verif.Uint64("y")
-	var in map[string]interface{}
-	switch verif.Choice("case", 4) {
+	var in interface{}
+	switch verif.Choice("case", 7) {
+	case 4: // two keys of different Go types with the same text
+		in = map[interface{}]interface{}{"a": x, c05Key("a"): y}
+	case 5:
+		in = map[interface{}]interface{}{"o": map[interface{}]interface{}{"a": map[string]interface{}{"k": x}, c05Key("a"): map[string]interface{}{"j": y}}}
+	case 6:
+		// (not a duplicate) the same *Config used for two settings, one of them extended by a dotted key:
+		// equals the generic-map spelling, and the Config itself stays what it was
+		cfg, err := ucfg.NewFrom(map[string]interface{}{"x": x})
+		verif.Assume(err == nil)
+		verif.PermuteMaps(true)
+		c, err := ucfg.NewFrom(map[string]interface{}{"a": cfg, "a.y": y, "b": cfg}, ucfg.PathSep("."))
+		verif.PermuteMaps(false)
+		verif.Assert(err == nil, "C05/config used twice accepted")
+		if err == nil {
+			got, err := unpackTree(c, ucfg.PathSep("."))
+			want := nDict().set("a", nDict().set("x", nUint(x)).set("y", nUint(y))).set("b", nDict().set("x", nUint(x)))
+			verif.Assert(err == nil && eqTree(got, want), "C05/a *Config used for two settings equals the generic-map spelling")
+			own, err := unpackTree(cfg)
+			verif.Assert(err == nil && eqTree(own, nDict().set("x", nUint(x))) && cfg.Path(".") == "", "C05/a *Config used as input stays what it was")
+		}
+		verif.Reach("duplicate input")
+		return
 	case 0:
 		in = map[string]interface{}{"a": map[string]interface{}{"b": x}, "a.b": y}
 	case 1:
